@@ -772,6 +772,20 @@ class ProcessingPipeline:
         for finalizer in self.finalizers:
             finalizer.set_pipeline(self)
 
+    def _ensure_ownership(self) -> None:
+        """
+        Re-attach the contained items to this pipeline if a concatenation handed them over to
+        another pipeline object in the meantime. Items have only one pipeline back-reference, that
+        is taken over by the result of each ``+``. Without this a pipeline that was used as operand
+        (e.g. the backend pipeline shared by all instances of a backend class) reads and writes the
+        state of a foreign pipeline object.
+        """
+        if any(
+            item._pipeline is not self for item in (*self.items, *self.postprocessing_items)
+        ) or any(finalizer._pipeline is not self for finalizer in self.finalizers):
+            self._clear_pipeline()
+            self.set_pipeline()
+
     def _clear_pipeline(self) -> None:
         for processing_item in self.items:
             processing_item._clear_pipeline()
@@ -913,6 +927,7 @@ class ProcessingPipeline:
 
     def apply(self, rule: SigmaRule | SigmaCorrelationRule) -> SigmaRule | SigmaCorrelationRule:
         """Apply processing pipeline on Sigma rule."""
+        self._ensure_ownership()
         self.applied = list()
         self.applied_ids = set()
         self.field_name_applied_ids = defaultdict(set)
@@ -927,6 +942,7 @@ class ProcessingPipeline:
 
     def postprocess_query(self, rule: SigmaRule | SigmaCorrelationRule, query: Any) -> Any:
         """Post-process queries with postprocessing_items."""
+        self._ensure_ownership()
         for item in self.postprocessing_items:
             query, applied = item.apply(rule, query)
             if applied and (itid := item.identifier):
@@ -934,6 +950,7 @@ class ProcessingPipeline:
         return query
 
     def finalize(self, output: Any) -> Any:
+        self._ensure_ownership()
         for finalizer in self.finalizers:
             output = finalizer.apply(output)
         return output
